@@ -45,9 +45,19 @@ def run_property(pid, tier, repo_root, write=True, out=print, evidence_dir=None,
     report = Report(pid, tier, repo, seed)
     ctx = Ctx(repo, report, tier)
     mod.run(ctx)
-    if controls:
+    from .report import load_known
+    known, _f = load_known()
+    unknown = [o for o in report.violated() if (pid, o.key) not in known]
+    if controls and unknown:
+        # the tree already violates the property: report that; controls (which are relative to a passing base)
+        # would only mask it
+        report.controls.append({'control': 'all', 'applied': False, 'detail': 'skipped: the analysed tree has violations'})
+    elif controls:
         from . import controls as C
         C.run_controls(pid, mod, ctx, tier)
+        if tier == 'thorough':
+            from . import crosscheck
+            crosscheck.run(ctx)
     rc, ev = report.finish(mod.META, out=out, write=write, evidence_dir=evidence_dir)
     return rc, report, ev
 
